@@ -219,7 +219,12 @@ func instrString(in ssa.Instruction) string {
 // ---------- predicates ----------
 
 // IsReturn selects Return instructions.
-func IsReturn(in ssa.Instruction) bool { _, ok := in.(*ssa.Return); return ok }
+func IsReturn(in ssa.Instruction) bool {
+	_, ok := in.(*ssa.Return)
+
+	// the synthetic return of the recover block (reached only after a recovered panic) is not a normal exit
+	return ok && in.Block() != in.Parent().Recover
+}
 
 // IsExit selects Return and Panic instructions.
 func IsExit(in ssa.Instruction) bool {
